@@ -123,7 +123,7 @@ fn check_item(it: &Item) -> Report {
                 continue;
             }
         };
-        let mut same = |chk: &mut Chk, what: &str, a: Sym, b: Sym, descr: String| {
+        let same = |chk: &mut Chk, what: &str, a: Sym, b: Sym, descr: String| {
             if a.0 == b.0 {
                 chk.trivially_holds(what);
                 return;
